@@ -12,12 +12,12 @@ import (
 )
 
 type worldBackend struct {
-	ID      string                    `json:"id"`
-	Name    string                    `json:"name"`
-	Flags   []string                  `json:"flags"`
-	Tables  map[string]*backend.Table `json:"tables"`
-	Sources []string                  `json:"sources"` // "self" = this backend's socket, "dead" = a path nobody listens on, "other:<id>"
-	Fallback []string                 `json:"fallback"`
+	ID       string                    `json:"id"`
+	Name     string                    `json:"name"`
+	Flags    []string                  `json:"flags"`
+	Tables   map[string]*backend.Table `json:"tables"`
+	Sources  []string                  `json:"sources"` // "self" = this backend's socket, "dead" = a path nobody listens on, "other:<id>"
+	Fallback []string                  `json:"fallback"`
 }
 
 type worldSpec struct {
@@ -35,6 +35,8 @@ type world struct {
 
 var curWorld *world
 
+var worldSeq int
+
 func (w *world) close() {
 	if w == nil {
 		return
@@ -46,7 +48,10 @@ func (w *world) close() {
 }
 
 func newWorld(spec *worldSpec, scratch string) (*world, error) {
-	dir := filepath.Join(scratch, "world")
+	// a directory of its own per world: a sender of an earlier world that is still waiting for its peer must
+	// not reach the backends of this one
+	worldSeq++
+	dir := filepath.Join(scratch, fmt.Sprintf("world%d", worldSeq))
 	_ = os.RemoveAll(dir)
 	if err := os.MkdirAll(dir, 0o755); err != nil {
 		return nil, err
@@ -100,14 +105,14 @@ func newWorld(spec *worldSpec, scratch string) (*world, error) {
 }
 
 type change struct {
-	Table  string                 `json:"table"`
-	Key    map[string]interface{} `json:"key"`
-	Set    map[string]interface{} `json:"set"`
-	Add    map[string]interface{} `json:"add"`
-	Remove bool                   `json:"remove"`
+	Table   string                   `json:"table"`
+	Key     map[string]interface{}   `json:"key"`
+	Set     map[string]interface{}   `json:"set"`
+	Add     map[string]interface{}   `json:"add"`
+	Remove  bool                     `json:"remove"`
 	Replace []map[string]interface{} `json:"replace"`
-	AddCol string                 `json:"add_col"`
-	DelCol string                 `json:"del_col"`
+	AddCol  string                   `json:"add_col"`
+	DelCol  string                   `json:"del_col"`
 }
 
 func keyMatches(row, key map[string]interface{}) bool {
@@ -165,17 +170,17 @@ func applyChanges(b *backend.Backend, changes []change) {
 }
 
 type worldLine struct {
-	ID       int             `json:"id"`
-	World    json.RawMessage `json:"world"`
-	Peer     string          `json:"peer"`
-	Backend  string          `json:"backend"`
-	Seconds  float64         `json:"seconds"`
-	Changes  []change        `json:"changes"`
-	Mode     string          `json:"mode"`
-	FailAfter *int           `json:"fail_after"`
-	FailMode string          `json:"fail_mode"`
-	CmdReply *string         `json:"cmd_reply"`
-	Commands []string        `json:"commands"`
+	ID        int             `json:"id"`
+	World     json.RawMessage `json:"world"`
+	Peer      string          `json:"peer"`
+	Backend   string          `json:"backend"`
+	Seconds   float64         `json:"seconds"`
+	Changes   []change        `json:"changes"`
+	Mode      string          `json:"mode"`
+	FailAfter *int            `json:"fail_after"`
+	FailMode  string          `json:"fail_mode"`
+	CmdReply  *string         `json:"cmd_reply"`
+	Commands  []string        `json:"commands"`
 }
 
 func worldOp(out *bufio.Writer, inst **lmd.VerifInstance, op string, raw []byte, scratch string) bool {
@@ -277,6 +282,7 @@ func worldOp(out *bufio.Writer, inst **lmd.VerifInstance, op string, raw []byte,
 		log, cmds := curWorld.backends[line.Backend].TakeLog()
 		res["log"] = log
 		res["commands"] = cmds
+		res["batches"] = curWorld.backends[line.Backend].TakenBatches()
 	case "commands":
 		if curWorld == nil {
 			return fail("no world")
